@@ -939,6 +939,15 @@ func (env *SpecEnv) evalNamedCall(name string, x *ast.CallExpr) *Val {
 		return &Val{T: intT, S: "(sl_ref " + arg(0).S + ")"}
 	case "off":
 		return &Val{T: intT, S: "(sl_off " + arg(0).S + ")"}
+	case "sent":
+		// sent(ch): the last value sent on channel ch
+		v := arg(0)
+		ct, ok := v.T.Underlying().(*types.Chan)
+		if !ok {
+			return env.fail("sent: argument must be a channel")
+		}
+		hn, hs := env.eng.chanHeap(ct.Elem())
+		return &Val{T: ct.Elem(), S: fmt.Sprintf("(select %s %s)", env.s.heap(hn, hs), v.S)}
 	case "heapsnap":
 		// heapsnap(s): the current contents of the element heap of slice s (all slices of that element type);
 		// only usable as an argument of an uninterpreted specification function, to make it state-dependent
